@@ -265,6 +265,14 @@ static Case decode(Src &s) {
         unsigned nd = need_depth(c.tree, c.arr);
         if (c.depth < nd) c.depth = nd > 255 ? 255 : nd;
         ref::flatten(c.tree, c.ops);
+        // the NUL-terminated API for some of the NUL-free strings and names (same bytes expected)
+        if (h & 0x80)
+            for (auto &o : c.ops) {
+                bool nulfree = true;
+                for (uint8_t ch : o.s) if (!ch) { nulfree = false; break; }
+                if (nulfree && o.k == ref::W_STR) o.k = ref::W_STR_C;
+                else if (nulfree && o.k == ref::W_NAME) o.k = ref::W_NAME_C;
+            }
     } else {
         c.arr = false;
         c.depth = 10;
